@@ -194,7 +194,9 @@ theorem fire_dstep (c : Cfg) (σ : St) (s r : Nat) : DStep c σ (fire c σ s r) 
       · exact .trans (.trans h0 (.now _ _ h)) (.vol ⟨rfl, rfl, rfl, rfl, rfl, rfl⟩)
     · exact .trans h0 (.now _ _ h)
     · exact .trans (.trans h0 (.now _ _ h)) (.vol (crashSt_same _))
-    · exact .trans h0 (.now _ _ h)
+    · split
+      · exact .trans h0 (.now _ _ h)
+      · exact .trans (.trans h0 (.now _ _ h)) (.vol ⟨rfl, rfl, rfl, rfl, rfl, rfl⟩)
 
 
 @[simp] theorem setJob_shelf (σ : St) (s r : Nat) (nj : Option Job) (s' r' : Nat) :
